@@ -14,7 +14,7 @@ def runLine (line : String) : String :=
     | none =>
       match opsTrav op args with
       | some r => r
-      | none => "bad-op"
+      | none => "skip"
 
 partial def loop (hin : IO.FS.Stream) (hout : IO.FS.Stream) : IO Unit := do
   let line ← hin.getLine
